@@ -197,6 +197,7 @@ func RunDecode(cfg Config) error {
 		log = io.Discard
 	}
 	all, _ := Types(enc.InterfaceRegistry, log)
+	SetAnyPackable(AnyTypes(enc.InterfaceRegistry))
 	var types []TypeEntry
 	for _, e := range all {
 		if (cfg.Filter == "" || strings.Contains(e.Name, cfg.Filter)) && (!cfg.Core || e.Core) {
